@@ -81,6 +81,9 @@ fn hoist_take2(arr: Vec<Primitive>) -> (r: (Primitive, Primitive))
 fn hoist_map_box<T>(x: Result<T>) -> (r: Result<Box<T>>)
     ensures r == (match x { Ok(v) => Ok::<Box<T>, PdfError>(Box::new(v)), Err(e) => Err::<Box<T>, PdfError>(e) })
 { x.map(Box::new) }
+// `n as f32` (Verus has no int -> float cast)
+#[verifier::external_body]
+fn hoist_i32_as_f32(n: i32) -> (r: f32) ensures r == f32_of_i32(n) { n as f32 }
 // `vec![a, b]`
 #[verifier::external_body]
 fn hoist_vec2(a: Primitive, b: Primitive) -> (r: Vec<Primitive>) ensures r@ == seq![a, b] { vec![a, b] }
@@ -120,31 +123,17 @@ pub open spec fn number_of(p: Primitive) -> Result<f32> {
 }
 pub open spec fn then<A, B>(x: Result<A>, f: spec_fn(A) -> Result<B>) -> Result<B> { match x { Ok(v) => f(v), Err(e) => Err(e) } }
 
-// The accessors live in the second of two `impl Primitive` blocks of primitive.rs; the extractor cannot address one of two
-// identically-headed blocks, so they are env stubs here (trusted, L0; each is a single `match`, see primitive.rs:496-598).
 impl Primitive {
-    #[verifier::external_body]
-    pub fn get_debug_name(&self) -> (r: &'static str) ensures r == debug_name(*self) { unimplemented!() }
-    #[verifier::external_body]
-    pub fn resolve<R: Resolve>(self, r: &R) -> (res: Result<Primitive>) ensures res == deref1(self, r.store()) { unimplemented!() }
-    #[verifier::external_body]
-    pub fn as_integer(&self) -> (r: Result<i32>) ensures r == int_of(*self) { unimplemented!() }
-    #[verifier::external_body]
-    pub fn as_u32(&self) -> (r: Result<u32>) ensures r == then(nat_of(*self), |n: int| Ok::<u32, PdfError>(n as u32)) { unimplemented!() }
-    #[verifier::external_body]
-    pub fn as_usize(&self) -> (r: Result<usize>) ensures r == then(nat_of(*self), |n: int| Ok::<usize, PdfError>(n as usize)) { unimplemented!() }
-    #[verifier::external_body]
-    pub fn as_number(&self) -> (r: Result<f32>) ensures r == number_of(*self) { unimplemented!() }
-    #[verifier::external_body]
-    pub fn as_bool(&self) -> (r: Result<bool>) ensures r == bool_of(*self) { unimplemented!() }
-    #[verifier::external_body]
-    pub fn into_reference(self) -> (r: Result<PlainRef>) ensures r == plainref_reads(self) { unimplemented!() }
-    #[verifier::external_body]
-    pub fn into_array(self) -> (r: Result<Vec<Primitive>>)
-        ensures r == (match self { Primitive::Array(v) => Ok::<Vec<Primitive>, PdfError>(v), _ => unexpected("Array", self) }) { unimplemented!() }
-    #[verifier::external_body]
-    pub fn into_name(self) -> (r: Result<Name>)
-        ensures r == (match self { Primitive::Name(s) => Ok::<Name, PdfError>(Name(s)), _ => unexpected("Name", self) }) { unimplemented!() }
+//@@ Primitive::get_debug_name
+//@@ Primitive::resolve
+//@@ Primitive::as_integer
+//@@ Primitive::as_u32
+//@@ Primitive::as_usize
+//@@ Primitive::as_number
+//@@ Primitive::as_bool
+//@@ Primitive::into_reference
+//@@ Primitive::into_array
+//@@ Primitive::into_name
 }
 
 // ---- specs: scalar codecs ---------------------------------------------------------------------------------------------
